@@ -78,7 +78,12 @@ func addSubstProcs(r rng, p *sdl.Program) {
 				if pr.Class == "inst" && at == sdl.CbEarly {
 					continue
 				}
-				pr.Rules = append(pr.Rules, &sdl.Rule{Target: tgt.ID, At: at, Action: action, Sub: s, Fresh: action == "substitute" && r.p(0.15)})
+				ru := &sdl.Rule{Target: tgt.ID, At: at, Action: action, Sub: s, Fresh: action == "substitute" && r.p(0.15)}
+				if tt := p.TypeByName(tgt.Type); len(plan) == 1 && action == "substitute" && (at == sdl.CbBefore || at == sdl.CbAfter) && !tt.Zero && !tt.Local && !sdl.IsAlt(tt.Name) && !ru.Fresh && r.p(0.3) {
+					// a decorator that embeds the component: its Init / AfterPropertiesSet are the component's
+					ru.SubType = sdl.DecoOf(tt.Name)
+				}
+				pr.Rules = append(pr.Rules, ru)
 			}
 		}
 		if pr.Class != "plain" && len(p.Instances) >= 2 && r.p(0.25) {
@@ -87,7 +92,7 @@ func addSubstProcs(r rng, p *sdl.Program) {
 			a := pick(r, p.Instances)
 			b := pick(r, p.Instances)
 			if a.ID != b.ID {
-				pr.Rules = append(pr.Rules, &sdl.Rule{Target: a.ID, At: pick(r, []string{sdl.CbAfterInst, sdl.CbAfterInst, sdl.CbProps, sdl.CbBefore}), Action: "lookup", Sub: b.ID})
+				pr.Rules = append(pr.Rules, &sdl.Rule{Target: a.ID, At: pick(r, []string{sdl.CbAfterInst, sdl.CbAfterInst, sdl.CbProps, sdl.CbBefore, sdl.CbBeforeInst}), Action: "lookup", Sub: b.ID})
 				pr.Props = true
 			}
 		}
